@@ -19,6 +19,20 @@ from lib import core
 
 DRIVER = "drv_copy"
 LEAN_TARGETS = ["OmplModel.Props.C09", DRIVER]
+# code under test that is compiled INTO the harness (ASan + UBSan incl. -fsanitize=vptr) instead of being taken from the
+# uninstrumented libompl.so: the executable's definitions interpose the library's, so every call (also from inside the
+# library) runs the instrumented copy.  Out-of-bounds offsets in (de)serialize, bad downcasts (F32), ... are then reported
+# by the sanitizers at the faulty statement instead of showing up (or not) as wrong values.
+INSTRUMENTED = ["src/ompl/base/src/StateSpace.cpp", "src/ompl/base/src/StateStorage.cpp"]
+# (not the leaf spaces: their translation units instantiate Eigen allocation helpers whose layout depends on the
+#  alignment flags libompl was built with; mixing the two copies makes Eigen free with the wrong scheme)
+
+
+def harness_sources():
+    return ["copy.cpp"] + [os.path.join(core.REPO, p) for p in INSTRUMENTED]
+
+
+MODE = {"wc": "ub"}     # set by run(): "fixed" when the code under test shows the repaired behaviour of F32
 ENGINE = "copy"
 
 
@@ -280,6 +294,9 @@ def gen_inner(r, names, depth, allow_zero=True):
         return gen_leaf(r, names, allow_zero)
     if k < 7:
         x = gen_leaf(r, names, allow_zero)
+        if MODE["wc"] == "fixed" and depth > 0 and r.chance(1, 2):
+            # a wrapper around a compound as a component (well defined once F32 is repaired: the wrapper is opaque)
+            x = ('C', names.fresh(), [gen_inner(r, names, depth - 1, allow_zero) for _ in range(r.range(1 if not allow_zero else 0, 3))])
         for _ in range(r.range(1, 2)):
             x = ('W', names.fresh(), x)
         return x
@@ -423,7 +440,7 @@ def no_wrapper_top(sp):
 
 class Script:
     def __init__(self):
-        self.lines = ["copy"]
+        self.lines = ["copy wc=" + MODE["wc"]]
         self.meta = []       # parallel to lines[1:]: dict describing the op for the oracle
 
     def add(self, line, **meta):
@@ -463,11 +480,11 @@ def gen_state_script(r):
             if r.chance(1, 2):
                 rs = [rand_bits(r) for _ in range(nre)]
                 sc.add(("fromreals %d %d %s" % (s, nre, " ".join(map(str, rs)))).strip(), op="fromreals", sid=s, reals=rs)
-        if has_wc(A):
+        if has_wc(A) and MODE["wc"] != "fixed":
             continue
         for _ in range(r.range(1, 3)):
             kind, B = gen_related(r, names, A)
-            if has_wc(B) or (B[0] == 'W' and zero_ext(B)):
+            if (has_wc(B) and MODE["wc"] != "fixed") or (B[0] == 'W' and zero_ext(B)):
                 continue
             b = a if kind == "same" else add_space(B)
             sb = add_state(b, r.chance(2, 3))
@@ -623,6 +640,8 @@ def gen_pd_script(r, big=False, quick=True):
     sc.add("pddump", op="pddump")
     sc.add("pdstore 2 %d" % r.below(1 << 30), op="pdstore", sp=A, sp2=B)
     if r.chance(1, 2):
+        sc.add("pdreload", op="pdreload")
+    if r.chance(1, 2):
         sc.add("pdcross", op="pdcross")
         sc.add("pddump", op="pddump")
     return sc
@@ -635,6 +654,19 @@ def gen_wc_probe():
     sc.add("space 1 %s" % " ".join(sp_tokens(A)), op="space", sp=A)
     at = ["f%d" % fbits(x) for x in (0.25, -0.5, 1.0, 2.0)]
     sc.add("state 1 1 4 %s" % " ".join(at), op="state", sp=A, atoms=at, regular=True)
+    return sc
+
+
+def gen_wrapper_names_probe():
+    """the dedicated probe of finding F105 (names overload of copyStateData on a top-level wrapper around a compound)"""
+    sc = Script()
+    A = ('W', 1, ('C', 2, [('R', 3, 2), ('S2', 4)]))
+    sc.add("space 1 %s" % " ".join(sp_tokens(A)), op="space", sp=A)
+    a = ["f%d" % fbits(x) for x in (0.25, -0.5, 1.0)]
+    b = ["f%d" % fbits(x) for x in (0.75, 0.5, -2.0)]
+    sc.add("state 1 1 3 %s" % " ".join(a), op="state", sp=A, atoms=a, regular=True)
+    sc.add("state 2 1 3 %s" % " ".join(b), op="state", sp=A, atoms=b, regular=True)
+    sc.add("csdnu 1 2 1 3", op="csdnu", d=1, s=2, names=[3], rel="top-level-wrapper")
     return sc
 
 
@@ -739,10 +771,12 @@ def oracle(sc, impl, rc, err):
             states[meta["sid"]] = (spid, new)
             if f.get("atoms") != join_or(new) or f.get("reals") != join_or(list(map(str, meta["reals"]))):
                 fail("reals-roundtrip", "after copyFromReals: %s; specification says atoms=%s" % (out[:160], join_or(new)[:120]))
-        elif op in ("csd", "csdn"):
+        elif op in ("csd", "csdn", "csdnu"):
             (dsp, d), (ssp, s) = states[meta["d"]], states[meta["s"]]
             if op == "csd":
                 res, nd = spec_csd(spaces[dsp], d, spaces[ssp], s)
+            elif op == "csdnu":
+                res, nd = spec_csdn(unwrap(spaces[dsp]), d, unwrap(spaces[ssp]), s, meta["names"])
             else:
                 res, nd = spec_csdn(spaces[dsp], d, spaces[ssp], s, meta["names"])
             states[meta["d"]] = (dsp, nd)
@@ -857,6 +891,15 @@ def oracle(sc, impl, rc, err):
                     if tr[1] != "0":
                         fail("truncation", "PlannerDataStorage::load on a truncated stream: %s of %s offsets wrong, first %s" % (tr[1], tr[0], tr[2] if len(tr) > 2 else "?"),
                              call="PlannerDataStorage::load", kind=(tr[2].split(":")[1] if len(tr) > 2 and ":" in tr[2] else "?"))
+        elif op == "pdreload":
+            if f.get("ok") != "1" or x.get("threw") == "1":
+                fail("reload-used-planner-data", "load() into a PlannerData that held another graph failed: %s" % full[:100], call="pdreload")
+            else:
+                for what, msg, rec in judge_graph(pd, f, last_dump, loaded=True):
+                    if what == "goal-marks-lost":      # the store side of it (F31): same as for pdstore
+                        fail(what, "loaded graph: " + msg, **rec)
+                    else:
+                        fail("reload-used-planner-data", "load() into a PlannerData that held another graph before (load() calls pd.clear()): " + msg, call="pdreload")
         elif op == "pdcross":
             if f.get("cross") != "rej":
                 fail("wrong-kind-archive", "an archive of the other kind (geometric/control marker) must make load() return false with an "
@@ -866,6 +909,9 @@ def oracle(sc, impl, rc, err):
         meta = sc.meta[died_at] if died_at < len(sc.meta) else {}
         partial = impl[died_at] if died_at < len(impl) else ""
         rec = {"engine": ENGINE, "what": "crash", "op": meta.get("op"), "call": meta.get("op")}
+        if meta.get("op") == "csdnu":
+            rec["what"] = "substate-of-wrapper"
+            rec["call"] = "csdnu"
         if meta.get("op") in ("space", "state") and wc_below_compound(meta.get("sp", ('R', 0, 0))):
             rec["what"] = "reals-lost"
             rec["space_class"] = "wrapper-of-compound-in-compound"
@@ -1021,7 +1067,7 @@ def judge(ck, hbin, sc, tag, compare=True, leak_stacks=True, res=None):
             ok = False
         else:
             ck.count("known-finding-hit:" + rec.get("what", "?"))
-    hard = [f for f in fails if f[1].get("what") in ("crash", "wrong-kind-archive", "reals-lost") and len(impl) < len(sc.lines) - 1]
+    hard = [f for f in fails if f[1].get("what") in ("crash", "wrong-kind-archive", "reals-lost", "substate-of-wrapper") and len(impl) < len(sc.lines) - 1]
     if compare and not hard:
         d = ck.first_diff(strip(impl), model)
         if d is not None and not [f for f in fails if f[0] == d]:
@@ -1059,6 +1105,8 @@ def corpus():
 def script_from_lines(lines):
     """rebuild the oracle's metadata from a plain script (corpus files, replays)"""
     sc = Script()
+    if lines and lines[0].startswith("copy wc="):
+        sc.lines[0] = lines[0]
     spaces = {}
     cdim = None
     rel = "corpus"
@@ -1079,6 +1127,8 @@ def script_from_lines(lines):
             sc.add(line, op=op, d=int(t[1]), s=int(t[2]), names=list(map(int, t[4:])), rel=rel)
         elif op == "common":
             sc.add(line, op=op, d=int(t[1]), s=int(t[2]), rel=rel)
+        elif op == "csdnu":
+            sc.add(line, op=op, d=int(t[1]), s=int(t[2]), names=list(map(int, t[4:])), rel=rel)
         elif op == "ss":
             sc.add(line, op=op, sids=list(map(int, t[5:])), sp=spaces[int(t[1])], sp2=spaces[int(t[2])])
         elif op == "pdnew":
@@ -1112,7 +1162,7 @@ def parse_sp(t, i):
 
 
 def setup(ck):
-    ck.build_harness(ENGINE, ["copy.cpp"], link_ompl=True)
+    ck.build_harness(ENGINE, harness_sources(), link_ompl=True, extra=["-fsanitize=vptr"])
 
 
 def run(ck):
@@ -1137,13 +1187,27 @@ def run(ck):
     ck.audit(roots=["Drv.Copy"])
     if ck.tier == "thorough" and ck.lean_ok:
         ck.leanchecker(["OmplModel.Props.C09"])
-    hbin = ck.build_harness(ENGINE, ["copy.cpp"], link_ompl=True)
+    hbin = ck.build_harness(ENGINE, harness_sources(), link_ompl=True, extra=["-fsanitize=vptr"])
     bad = 0
+    # the probe of F32 (wrapper around a compound below a compound): once, alone.  On the current code it is undefined
+    # behaviour (the instrumented StateSpace.cpp reports the bad downcast), a known finding, and such spaces stay out of
+    # the random stream; when the code under test shows the repaired behaviour the whole run switches to `wc=fixed`:
+    # model and generators then include those spaces.
+    MODE["wc"] = "ub"
+    probe = gen_wc_probe()
+    pimpl, prc, perr, pmodel = run_one(ck, hbin, probe, False)
+    if not oracle(probe, pimpl, prc, perr):
+        MODE["wc"] = "fixed"
+        ck.notes.append("the code under test treats a wrapper around a compound as an opaque leaf (F32 repaired): wc=fixed")
+        judge(ck, hbin, gen_wc_probe(), "probe-wrapper-of-compound")
+    else:
+        judge(ck, hbin, probe, "probe-wrapper-of-compound", compare=False, res=(pimpl, prc, perr, pmodel))
+    ck.count("mode:wc=" + MODE["wc"])
+    # the probe of F105: once, alone (undefined behaviour today; compared with the model when it runs through)
+    judge(ck, hbin, gen_wrapper_names_probe(), "probe-names-overload-on-wrapper")
     for name, lines in corpus():
         if not judge(ck, hbin, script_from_lines(lines), "corpus"):
             bad += 1
-    # the undefined-behaviour probe of F32: once, alone, never compared with the model
-    judge(ck, hbin, gen_wc_probe(), "probe-wrapper-of-compound", compare=False)
     quick = ck.tier == "quick"
     jobs = []
     for i in range(90 if quick else 500):
@@ -1167,7 +1231,7 @@ def run(ck):
 
 
 def replay(ck, data):
-    hbin = ck.build_harness(ENGINE, ["copy.cpp"], link_ompl=True)
+    hbin = ck.build_harness(ENGINE, harness_sources(), link_ompl=True, extra=["-fsanitize=vptr"])
     ck.lean_build([DRIVER])
     lines = data["script"]
     sc = script_from_lines(lines)
